@@ -28,7 +28,7 @@ PEER = lambda cid: ("127.0.0.1", 40000 + cid)
 
 BAD_KINDS = ["not-json", "json-number", "json-list", "no-action-type", "no-parameters", "unknown-type",
              "unknown-param", "param-wrong-shape", "invalid-ip", "missing-required", "undecodable-bytes",
-             "invalid-network", "empty", "params-not-dict", "extra-field-in-value", "invalid-utf8-in-json", "invalid-utf8-in-json", "reset-bad-flag", "reset-bad-flag", "reset-unknown-param", "join-wrong-shape", "join-wrong-shape", "network-mask-not-int", "garbage-buffer-size"]
+             "invalid-network", "empty", "params-not-dict", "extra-field-in-value", "invalid-utf8-in-json", "invalid-utf8-in-json", "reset-bad-flag", "reset-bad-flag", "reset-unknown-param", "join-wrong-shape", "join-wrong-shape", "network-mask-not-int", "garbage-buffer-size", "ip-not-a-string", "missing-required"]
 
 
 def bad_message(kind, rng):
@@ -68,6 +68,9 @@ def bad_message(kind, rng):
         good = json.dumps({"action_type": "ActionType.FindServices", "parameters": {"source_host": src, "target_host": {"ip": "192.168.1.2"}}}).encode()
         i = rng.choice([0, 1, len(good) // 2, len(good)])
         return good[:i] + rng.choice([b"\xff\xfe", b"\xc3", b"\x80"]) + good[i:]
+    if kind == "ip-not-a-string":      # an address written as a number or a boolean is not an address
+        return json.dumps({"action_type": "ActionType." + rng.choice(["FindServices", "FindData", "ResetGame", "JoinGame"]),
+                           "parameters": {"source_host": {"ip": rng.choice([3232236034, True, 0, 1.5])}, "target_host": {"ip": "192.168.1.2"}}}).encode()
     if kind == "extra-field-in-value":
         return json.dumps({"action_type": "ActionType.FindServices", "parameters": {"source_host": {"ip": "192.168.2.2", "x": 1}, "target_host": src}}).encode()
     if kind == "network-mask-not-int":
@@ -262,6 +265,9 @@ class Session:
         self.awaiting = {}        # cid -> description of the unanswered request
         self.last_msg = {}        # cid -> the last message event fed on that connection
         self.sent_actions = {}    # cid -> the executed game actions of the running episode as they were sent (None: no longer tracked)
+        self.last_view_obj = {}   # cid -> the view object last sent to that connection
+        self.placed0 = None       # node -> datapoints the scenario puts there (captured before anybody acted)
+        self.placed_extra = {}    # node -> datapoints exfiltrated there since the last completed reset
         self.pending_leave = {}   # cid -> kind (eof / readerr noticed only after the reply)
         self.next_cid = 0
         self.alive = set()
@@ -318,6 +324,13 @@ class Session:
                 raise
             o["stepView"] = C.view2j(r)
             o["stepCalled"] = True
+            try:      # where datapoints are put by exfiltrations (whether or not the reply reaches the agent)
+                if action.type == ActionType.ExfiltrateData:
+                    t, d = action.parameters.get("target_host"), action.parameters.get("data")
+                    if d in r.known_data.get(t, ()) and d not in agent_state.known_data.get(t, ()):
+                        sess.placed_extra.setdefault(co._ip_to_hostname.get(t), set()).add(d)
+            except Exception:
+                pass
             return r
 
         async def register_agent(agent_id, agent_role, agent_initial_view):
@@ -428,6 +441,9 @@ class Session:
                             same_elems = C.canon_view(C.view2j(held)) == r["obs"]["view"]
                         except Exception:
                             same_elems = False
+                        if not same_elems:
+                            self.fail({"C15"}, "sent-view-differs-from-held", f"the view in the {r['code']} response to connection {cid} is not the view the coordinator holds for that agent "
+                                      f"(parts that differ: {C.diff_canon(r['obs']['view'], C.canon_view(C.view2j(held)))})", self.replay())
                         if same_elems:
                             odd = sorted({f"{part}[{k}]: {type(v).__name__}" for part in ("known_services", "known_data", "known_blocks") for k, v in getattr(held, part).items() if not isinstance(v, (set, frozenset))}
                                          | {f"{part}: {type(getattr(held, part)).__name__}" for part in ("known_networks", "known_hosts", "controlled_hosts") if not isinstance(getattr(held, part), (set, frozenset))})
@@ -448,6 +464,44 @@ class Session:
                     r["traj_meta"] = {k: msg["last_trajectory"].get(k) for k in ("agent_role", "agent_name", "end_reason")}
             outs.append(r)
         return outs
+
+    def _placed_check(self, c, o):
+        """C11 'at the place where it is reported': a datapoint that appears in a view at host h (and was not in the view sent to that
+        agent before) is one the scenario puts on h's node or one exfiltrated there since the last completed reset (static addresses)."""
+        try:
+            self._placed_check_inner(c, o)
+        except Exception:       # values outside the modelled space (an unhashable field that a defective tree let through): not this oracle's business
+            pass
+
+    def _placed_check_inner(self, c, o):
+        co = self.coord
+        if self.cfg["env"].get("use_dynamic_addresses") or self.placed0 is None:
+            return
+        try:
+            v = GameState.from_dict(o["raw"]["observation"]["state"])
+        except Exception:
+            return
+        prev = self.last_view_obj.get(c)
+        self.last_view_obj[c] = v
+        lm = self.last_msg.get(c)
+        try:
+            act = Action.from_json(lm["raw_bytes"].decode()) if lm is not None and lm["m"].get("k") == "game" else None
+        except Exception:
+            act = None
+        if act is not None and act.type == ActionType.ExfiltrateData:
+            t, d = act.parameters.get("target_host"), act.parameters.get("data")
+            if t is not None and d is not None and d in v.known_data.get(t, ()) and (prev is None or d not in prev.known_data.get(t, ())):
+                self.placed_extra.setdefault(co._ip_to_hostname.get(t), set()).add(d)
+        if prev is None:
+            return
+        bad = [(str(h), (d.owner, d.id)) for h, ds in v.known_data.items() for d in ds
+               if d not in prev.known_data.get(h, ()) and d not in self.placed0.get(co._ip_to_hostname.get(h), ()) and d not in self.placed_extra.get(co._ip_to_hostname.get(h), ())]
+        self.stats["placed_checks"] = self.stats.get("placed_checks", 0) + 1
+        if bad:
+            self.fail({"C11"} | ({"C08"} if self.episode.get(c, 0) > 1 else set()), "misplaced-datapoint", f"the view sent to connection {c} reports datapoints at hosts where the scenario does not put them and where "
+                      f"nobody has exfiltrated them since the last completed reset: {bad[:3]}", self.replay())
+            for h, ds in v.known_data.items():
+                self.placed_extra.setdefault(co._ip_to_hostname.get(h), set()).update(ds)
 
     def replay(self):
         return {"kind": "coord-session", "config": self.cfg, "events": self.events, "label": self.label}
@@ -862,6 +916,12 @@ class Session:
             if o["code"] == "CREATED" or o["code"] == "RESET_DONE":
                 self.sent_log[c] = []
                 self.sent_actions[c] = []
+                try:
+                    self.last_view_obj[c] = GameState.from_dict(o["raw"]["observation"]["state"])
+                except Exception:
+                    self.last_view_obj.pop(c, None)
+                if o["code"] == "RESET_DONE":
+                    self.placed_extra = {}        # a completed reset: nothing has been exfiltrated in the new episode yet
                 self.sent_lost[c] = False
                 self.init_view[c] = o["obs"]["view"]
                 self.episode[c] = self.episode.get(c, 0) + 1
@@ -869,6 +929,7 @@ class Session:
                     self.fail({"C07", "C05"}, "reset-obs", f"RESET_DONE with reward {o['obs']['reward']} end {o['obs']['end']}", self.replay())
             elif o["code"] == "OK":
                 self.sent_log.setdefault(c, []).append((o["obs"]["reward"], o["obs"]["view"]))
+                self._placed_check(c, o)
                 # C16: the trajectory lists the game actions that were executed - as the agent sent them
                 lm = self.last_msg.get(c)
                 if lm is not None and lm["m"].get("k") == "game" and not lm.get("must_refuse"):
@@ -992,6 +1053,7 @@ class Session:
         # C08: every completed reset (static addresses) must leave the world in its initial condition
         if self.world0 is None and co._ip_to_hostname and not any(co._agent_steps.values()) and not co._fw_blocks:
             self.world0 = C.canon_worlddyn(C.worlddyn2j(co))
+            self.placed0 = {hn: set(ds) for hn, ds in co._data.items()}
             self.tables0 = C.tables(co) if dyn else None
         if dyn and getattr(self, "tables0", None) is not None and any(o.get("code") == "RESET_DONE" for o in real_outs) and not any(co._agent_steps.values()):
             # dynamic addresses: after a completed reset every table is the INITIAL table pushed through the published maps
@@ -1320,16 +1382,23 @@ def directed_sessions(drv, rng, defender_tables, on_fail, stats, n):
     def ev_game(sess, cid, a, roll=0.9):
         return {"t": "msg", "c": cid, "m": {"k": "game", "act": sess.akey(a)}, "raw_bytes": a.to_json().encode(), "roll": roll}
 
+    dotted = [False]
+
     def ev_join(cid, role):
-        return {"t": "msg", "c": cid, "m": {"k": "join", "name": f"agent{cid}", "role": role}, "raw_bytes": J(ActionType.JoinGame, agent_info=AgentInfo(f"agent{cid}", role))}
+        # names with dots (q-agent.v1 / q-agent.v2): different agents, different trajectory files
+        name = f"q-agent.v{cid}" if dotted[0] else f"agent{cid}"
+        return {"t": "msg", "c": cid, "m": {"k": "join", "name": name, "role": role}, "raw_bytes": J(ActionType.JoinGame, agent_info=AgentInfo(name, role))}
 
     def ev_reset(cid, tr=False):
         return {"t": "msg", "c": cid, "m": {"k": "reset", "traj": tr}, "raw_bytes": J(ActionType.ResetGame, request_trajectory=tr)}
     ip = IP
     for i in range(n):
         cfg = gen_config(rng)
+        dotted[0] = rng.random() < 0.5
         cfg["env"].update({"required_players": 2, "use_dynamic_addresses": rng.random() < 0.4, "use_firewall": True, "use_global_defender": False})
-        cfg["coordinator"]["agents"]["Attacker"]["start_position"]["controlled_hosts"] = ["213.47.23.195", "192.168.2.2"]
+        if dotted[0] and rng.random() < 0.7:
+            cfg["env"]["save_trajectories"] = True
+        cfg["coordinator"]["agents"]["Attacker"]["start_position"]["controlled_hosts"] = ["213.47.23.195", "192.168.2.2", "192.168.1.2"]      # the last one holds data of the scenario
         cfg["coordinator"]["agents"]["Attacker"]["max_steps"] = rng.choice([None, 8, 20])
         if cfg["coordinator"]["agents"]["Attacker"]["max_steps"] is None:
             del cfg["coordinator"]["agents"]["Attacker"]["max_steps"]
@@ -1356,16 +1425,16 @@ def directed_sessions(drv, rng, defender_tables, on_fail, stats, n):
                         {"t": "msg", "c": 0, "m": {"k": "bad"}, "bad_kind": "network-mask-not-int",
                          "raw_bytes": json.dumps({"action_type": "ActionType.ScanNetwork", "parameters": {"source_host": {"ip": "192.168.2.2"}, "target_network": {"ip": "192.168.1.0", "mask": 24.0}}}).encode()},
                         ev_game(sess, 0, Action(ActionType.FindData, {"source_host": ip("192.168.2.2"), "target_host": ip("192.168.2.2")})),
-                        ev_game(sess, 0, Action(ActionType.FindData, {"source_host": ip("213.47.23.195"), "target_host": ip("213.47.23.195")}))]
+                        ev_game(sess, 0, Action(ActionType.FindData, {"source_host": ip("192.168.1.2"), "target_host": ip("192.168.1.2")}))]
             for e in evs:
                 sess.do(e)
             if modifier_role == "Attacker":
                 # exfiltrate whatever the attacker found on one of its hosts to the other one
                 v = sess.coord._agent_states.get(PEER(0))
                 if v is not None:
-                    for src in sorted(v.controlled_hosts, key=str):
+                    for src in sorted(v.controlled_hosts, key=lambda h: (str(h) != "192.168.1.2", str(h))):
                         ds = sorted(v.known_data.get(src, ()), key=repr)
-                        tg = [h for h in sorted(v.controlled_hosts, key=str) if h != src]
+                        tg = [h for h in sorted(v.controlled_hosts, key=lambda h: (str(h) != "213.47.23.195", str(h))) if h != src]
                         if ds and tg:
                             sess.do(ev_game(sess, 0, Action(ActionType.ExfiltrateData, {"source_host": src, "target_host": tg[0], "data": ds[0]})))
                             # decodable, but the world cannot process it (an unhashable field): refused, nothing counted or recorded
@@ -1385,6 +1454,12 @@ def directed_sessions(drv, rng, defender_tables, on_fail, stats, n):
             sess.do({"t": "connect", "c": 2})
             sess.do(ev_join(2, modifier_role))
             sess.next_cid = 3          # peer addresses 0-2 are taken by the scripted part
+            # in the new episode the agent that stayed looks at every host it controls: nothing of the last episode is there
+            v1 = sess.coord._agent_states.get(PEER(1))
+            if v1 is not None and not sess.coord._episode_ends.get(PEER(1)):
+                for h in sorted(v1.controlled_hosts, key=str)[:3]:
+                    if not sess.broken:
+                        sess.do(ev_game(sess, 1, Action(ActionType.FindData, {"source_host": h, "target_host": h})))
             sc = Script(sess, rng, {"bad": 0.0, "leave": 0.0, "burst": 0.0, "reuse": 0.0})
             for _ in range(8):
                 if sess.broken:
@@ -1638,12 +1713,61 @@ def directed_find_services(drv, rng, defender_tables, on_fail, stats, n):
                 if sess.broken:
                     break
                 sess.do(ev_game(sess, 0, Action(ActionType.FindServices, {"source_host": src, "target_host": h})))
+            if not sess.broken:      # a valid action type with a required parameter left out: one refusal, and play goes on in step
+                sess.do({"t": "msg", "c": 0, "m": {"k": "bad"}, "bad_kind": "missing-required",
+                         "raw_bytes": json.dumps({"action_type": "ActionType.FindServices", "parameters": {"source_host": {"ip": str(src)}}}).encode()})
             for h in sorted(v.controlled_hosts, key=str):
                 if not sess.broken:
                     sess.do(ev_game(sess, 0, Action(ActionType.FindData, {"source_host": h, "target_host": h})))
             if not sess.broken:
                 sess.do({"t": "msg", "c": 0, "m": {"k": "reset", "traj": True}, "raw_bytes": J(ActionType.ResetGame, request_trajectory=True)})
             stats["directed_find_services"] = stats.get("directed_find_services", 0) + 1
+        finally:
+            sess.close()
+
+
+def directed_empty_game(drv, rng, defender_tables, on_fail, stats, n):
+    """One seat.  An attacker exfiltrates what it knows to its other host and leaves WITHOUT a reset - the game is empty.  The next
+    attacker joins the still running episode (the copied data is legitimately there), asks for a reset and then looks at every
+    host it controls: the world is the loaded one again, nothing of the first session is reported.  A third session repeats it."""
+    def ev_game(sess, cid, a, roll=0.9):
+        return {"t": "msg", "c": cid, "m": {"k": "game", "act": sess.akey(a)}, "raw_bytes": a.to_json().encode(), "roll": roll}
+    for i in range(n):
+        cfg = gen_config(rng)
+        cfg["env"].update({"required_players": 1, "use_dynamic_addresses": False, "use_firewall": True, "use_global_defender": False})
+        att = cfg["coordinator"]["agents"]["Attacker"]
+        att["start_position"]["controlled_hosts"] = ["213.47.23.195", "192.168.2.2", "192.168.1.2"]      # the last one holds data of the scenario
+        att["start_position"]["known_data"] = {}
+        att.pop("max_steps", None)
+        att["goal"].update({"known_networks": [], "known_hosts": [], "controlled_hosts": [], "known_services": {}, "known_blocks": {},
+                            "known_data": {"213.47.23.195": [["User9", "NoSuchData"]]}})
+        sess = Session(drv, rng, cfg, defender_tables, on_fail, stats, f"empty-game#{i}")
+        try:
+            if sess.sim.startup_error is not None or sess.sim.server_cb is None:
+                continue
+            src, cc = IP("192.168.1.2"), IP("213.47.23.195")
+            for cid in range(3):
+                if sess.broken:
+                    break
+                sess.do({"t": "connect", "c": cid})
+                sess.do({"t": "msg", "c": cid, "m": {"k": "join", "name": f"agent{cid}", "role": "Attacker"}, "raw_bytes": J(ActionType.JoinGame, agent_info=AgentInfo(f"agent{cid}", "Attacker"))})
+                if cid > 0:
+                    sess.do({"t": "msg", "c": cid, "m": {"k": "reset", "traj": False}, "raw_bytes": J(ActionType.ResetGame, request_trajectory=False)})
+                    for h in (cc, IP("192.168.2.2")):
+                        if not sess.broken:
+                            sess.do(ev_game(sess, cid, Action(ActionType.FindData, {"source_host": h, "target_host": h})))
+                if sess.broken:
+                    break
+                sess.do(ev_game(sess, cid, Action(ActionType.FindData, {"source_host": src, "target_host": src})))
+                vv = sess.coord._agent_states.get(PEER(cid))
+                found = sorted(vv.known_data.get(src, ()), key=repr) if vv is not None else []
+                for d in found[:2]:
+                    if not sess.broken:
+                        sess.do(ev_game(sess, cid, Action(ActionType.ExfiltrateData, {"source_host": src, "target_host": rng.choice([cc, IP("192.168.2.2")]), "data": d})))
+                if rng.random() < 0.5:
+                    sess.do(ev_game(sess, cid, Action(ActionType.BlockIP, {"source_host": src, "target_host": src, "blocked_host": IP("192.168.1.3")})))
+                sess.do({"t": "msg", "c": cid, "m": {"k": "quit"}, "raw_bytes": J(ActionType.QuitGame)} if rng.random() < 0.5 else {"t": "eof", "c": cid})
+            stats["directed_empty_game"] = stats.get("directed_empty_game", 0) + 1
         finally:
             sess.close()
 
@@ -1877,7 +2001,7 @@ def probe_marker_in_values(on_fail, stats):
     from AIDojoCoordinator.game_components import ProtocolConfig
     marker = ProtocolConfig.END_OF_MESSAGE.decode() if isinstance(ProtocolConfig.END_OF_MESSAGE, bytes) else str(ProtocolConfig.END_OF_MESSAGE)
     cfg = default_config(env={"required_players": 1})
-    for name in ("G" + marker + "F", marker, "x " + marker + " y"):
+    for name in ("G" + marker + "F", marker, "x " + marker + " y", "Agent  Smith"):
         sim = Sim(cfg)
         try:
             if sim.startup_error is not None or sim.server_cb is None:
@@ -1894,6 +2018,8 @@ def probe_marker_in_values(on_fail, stats):
             acts = [Action(ActionType.ExploitService, {"source_host": src, "target_host": IP("192.168.1.2"), "target_service": Service(marker + "d", "passive", "1." + marker, False)}),
                     Action(ActionType.ExfiltrateData, {"source_host": src, "target_host": IP("213.47.23.195"), "data": Data("User1", "report_" + marker + "_2024")}),
                     Action(ActionType.ExfiltrateData, {"source_host": src, "target_host": IP("213.47.23.195"), "data": Data(" lead", "trail ", 3, " t ")}),
+                    Action(ActionType.ExfiltrateData, {"source_host": src, "target_host": IP("213.47.23.195"), "data": Data("User1", "Database   Data", 0, "two  blanks")}),
+                    Action(ActionType.ExploitService, {"source_host": src, "target_host": IP("192.168.1.2"), "target_service": Service("remote  desktop", "passive", "10.0\t1", False)}),
                     Action(ActionType.ExploitService, {"source_host": src, "target_host": IP("192.168.1.3"), "target_service": Service(" ssh", "passive ", "14.3.0 ", False)})]
             for a in acts:
                 sim.send(0, a.to_json())
@@ -1979,6 +2105,37 @@ def probe_defender_switch(on_fail, stats):
                 sim.close()
     finally:
         GD.random = orig
+
+
+def probe_start_position_without_blocks(on_fail, stats):
+    """A task file whose start positions lack the never-read `known_blocks` key.  If the game starts with it, a JoinGame of that
+    role must be answered (C01) with the configured hosts (C19), and when the client then closes, its slot comes back and
+    the next agent is served (C18, C10)."""
+    cfg = default_config(env={"required_players": 1})
+    for role in ("Attacker", "Defender"):
+        cfg["coordinator"]["agents"][role]["start_position"].pop("known_blocks", None)
+    for role in ("Defender", "Attacker"):
+        sim = Sim(cfg)
+        try:
+            if sim.startup_error is not None or sim.server_cb is None:
+                return          # such a file is refused at start-up: nothing to judge
+            sim.connect(0)
+            sim.send(0, J(ActionType.JoinGame, agent_info=AgentInfo("a", role)))
+            outs = [(c, k, (parse_reply(p)[1] or {}).get("status") if k == "reply" else None) for c, k, p in sim.outputs()]
+            stats["probe_start_position_without_blocks"] = stats.get("probe_start_position_without_blocks", 0) + 1
+            rep = {"kind": "config-session", "config": cfg, "script": [f"JoinGame as {role}", "client closes", "next agent connects and joins"]}
+            if outs != [(0, "reply", "GameStatus.CREATED")]:
+                on_fail({"C01", "C19"}, "start-without-blocks:join", f"start positions without the known_blocks key, the game started: JoinGame as {role} got {outs} instead of CREATED "
+                        f"(exceptions {[repr(u.get('exception'))[:100] for u in sim.loop.unhandled][-1:]})", rep)
+            sim.eof(0)
+            sim.outputs()
+            sim.connect(1)
+            sim.send(1, J(ActionType.JoinGame, agent_info=AgentInfo("b", role)))
+            if not sim.handler_done(0) or sim.conns[1].writer.closed:
+                on_fail({"C18", "C10"}, "start-without-blocks:slot", f"start positions without the known_blocks key: after the {role} client closed its connection the handler "
+                        f"{'is still running' if not sim.handler_done(0) else 'ended'}, and the next agent's connection is {'refused' if sim.conns[1].writer.closed else 'served'}", rep)
+        finally:
+            sim.close()
 
 
 def probe_defender_rolls(on_fail, stats):
@@ -2138,6 +2295,15 @@ def check_files(sess: Session, on_fail, stats):
     for key, fs in file_of.items():
         if len(fs) > 1:
             on_fail({"C16"}, "files-split", f"the episodes of {key[0][:40]!r}/{key[1]} are spread over several files {sorted(os.path.basename(x)[:60] for x in fs)}", sess.replay())
+    import re as _re
+    for key, fs in file_of.items():
+        # "the trajectory file for that agent's name and role": for a name that needs no sanitising the file name carries both in full
+        nm, rl = key
+        if isinstance(nm, str) and isinstance(rl, str) and _re.fullmatch(r"[\w.-]{1,48}", nm):
+            for f in fs:
+                b = os.path.basename(f)
+                if nm not in b or rl not in b:
+                    on_fail({"C16"}, "files-name", f"the episodes of agent {nm!r} ({rl}) are stored in {b!r}, a file name that does not carry that name and role in full", sess.replay())
     for f, ks in owners.items():
         if len(ks) > 1:
             on_fail({"C16"}, "files-shared", f"trajectory file {os.path.basename(f)[:60]} holds episodes of different agents {sorted((k[0][:30], k[1]) for k in ks)}", sess.replay())
@@ -2216,7 +2382,7 @@ def check_goal_function(drv, rng, on_fail, stats, n):
             if real is True:
                 stats["goal_true"] = stats.get("goal_true", 0) + 1
             if real != m["goal"]:
-                on_fail({"C04"}, f"goal_check:{real}|{m['goal']}", f"goal_check returned {real} but 'every goal component is contained in the view' is {m['goal']}",
+                on_fail({"C04", "C05"}, f"goal_check:{real}|{m['goal']}", f"goal_check returned {real} but 'every goal component is contained in the view' is {m['goal']}",
                         {"kind": "goal", "goal": goal2j(goal), "view": C.view2j(view), "real": real, "model": m["goal"]})
     finally:
         sim.close()
